@@ -94,8 +94,8 @@ impl Property for C02 {
     }
     fn runs(&self, tier: Tier) -> u64 {
         match tier {
-            Tier::Quick => 500,
-            Tier::Thorough => 10000,
+            Tier::Quick => 1200,
+            Tier::Thorough => 24000,
         }
     }
     fn rule(&self) -> &'static str {
